@@ -76,6 +76,69 @@ def gen_case(rng, exhaustive_dirs=None):
     return case
 
 
+def _outer_columns(case):
+    """The source columns the (outer) statement of a case refers to."""
+    used = []
+    if case['agg']:
+        used.append(case['gcol'])
+        used += [e[4:-1] for e, _ in case['targets'] if e.startswith('sum(')]
+    else:
+        used += [e for e, _ in case['targets']]
+    used += [k[1] for k in case['keys'] if k[0] in ('col', 'neg')]
+    return list(dict.fromkeys(used))
+
+
+def gen_sub_case(rng):
+    """FROM (SELECT [DISTINCT] some columns FROM #t [ORDER BY visible / hidden keys] [LIMIT i]) under an outer statement of
+    every shape [DISTINCT] [ORDER BY] [LIMIT o] (all 8 combinations equally likely, so also the plain scan): each level
+    sorts, deduplicates and cuts ITS OWN row list, the outer one starting from what the inner one returned."""
+    case = gen_case(rng)
+    while not case['rows'] and rng.random() < 0.8:
+        case = gen_case(rng)
+    case['inner'] = []
+    names = [n for n, _ in case['cols']]
+    n = len(case['rows'])
+    # outer shape: the three clauses independently present / absent
+    if rng.random() < 0.5:
+        case['keys'] = []
+    elif not case['keys']:
+        case['keys'] = [('pos', 1, rng.choice(['', ' DESC']))]
+    case['distinct'] = rng.random() < 0.5
+    case['limit'] = rng.choice([0, 1, 2, max(n - 1, 0), n, n + 3]) if rng.random() < 0.5 else None
+    used = _outer_columns(case)
+    rest = [c for c in names if c not in used]
+    icols = used + [c for c in rest if rng.random() < 0.5]
+    rng.shuffle(icols)
+    order = []
+    if rng.random() < 0.5:
+        order = [(rng.choice(names), rng.choice(['', ' DESC'])) for _ in range(rng.randint(1, 2))]
+    case['sub'] = {'cols': icols, 'order': order, 'distinct': rng.random() < 0.4,
+                   'limit': rng.choice([0, 1, 2, max(n - 2, 0), max(n - 1, 0), n, n + 3]) if rng.random() < 0.6 else None}
+    return case
+
+
+SUB_MATRIX_ROWS = [(1, 5), (2, 4), (1, 5), (None, 3), (2, 2), (1, 1), (2, 4), (3, None)]
+
+
+def sub_matrix_cases():
+    """Every combination of inner ORDER BY / DISTINCT / LIMIT with outer ORDER BY / DISTINCT / LIMIT on one table with
+    duplicate rows, duplicate key values and NULLs (LIMITs: 0, below / equal to / above the size of the row list they cut)."""
+    out = []
+    for iorder in ([], [('b', ' DESC')]):
+        for idist in (False, True):
+            for ilim in (None, 0, 2, 4, 20):
+                for okeys in ([], [('col', 'b', '')], [('pos', 1, ' DESC')]):
+                    for odist in (False, True):
+                        for olim in (None, 0, 1, 3, 20):
+                            if ilim is None and olim is None and not (idist or odist):
+                                continue
+                            out.append({'cols': [('a', 'int'), ('b', 'int')], 'rows': SUB_MATRIX_ROWS, 'agg': False, 'hidden_key': False,
+                                        'targets': [('a', None)] if okeys[:1] == [('col', 'b', '')] else [('a', None), ('b', 'y')],
+                                        'keys': okeys, 'inner': [], 'distinct': odist, 'limit': olim,
+                                        'sub': {'cols': ['a', 'b'], 'order': iorder, 'distinct': idist, 'limit': ilim}})
+    return out
+
+
 def statement(case):
     tl = ', '.join(e + (f' AS {a}' if a else '') for e, a in case['targets'])
     ks = []
@@ -93,6 +156,11 @@ def statement(case):
     if case.get('inner'):
         src = ('(SELECT ' + ', '.join(n for n, _ in case['cols']) + ' FROM #t ORDER BY '
                + ', '.join(c + d for c, d in case['inner']) + ')')
+    if case.get('sub'):
+        sub = case['sub']
+        src = ('(SELECT ' + ('DISTINCT ' if sub['distinct'] else '') + ', '.join(sub['cols']) + ' FROM #t'
+               + (' ORDER BY ' + ', '.join(c + d for c, d in sub['order']) if sub['order'] else '')
+               + (f' LIMIT {sub["limit"]}' if sub['limit'] is not None else '') + ')')
     s = 'SELECT ' + ('DISTINCT ' if case['distinct'] else '') + tl + ' FROM ' + src
     if case['agg']:
         s += f' GROUP BY {case["gcol"]}'
@@ -164,6 +232,8 @@ def model_expr(case):
     """The whole statement is executed by the model (Model/Exec.v: row loop or aggregate store, then ORDER BY /
     projection / DISTINCT / LIMIT); only the resolution of ORDER BY references to target positions is the harness's."""
     names = [n for n, _ in case['cols']]
+    if case.get('sub'):
+        names = list(case['sub']['cols'])         # the outer statement sees the subquery's output columns
     idx = {n: i for i, n in enumerate(names)}
     targets, aggs, group = [], [], None
     if not case['agg']:
@@ -211,6 +281,26 @@ def model_expr(case):
               + '; q_group := None; q_aggs := []; q_having := None; q_order := Some '
               + clist([cpair(f'{idx[c]}%nat', cbool(d == ' DESC')) for c, d in case['inner']])
               + '; q_vis := ' + clist([f'{i}%nat' for i in range(nc)]) + '; q_distinct := false; q_limit := None |}')
+        table = f'(exec {iq} {table})'
+    if case.get('sub'):
+        # the subquery executed by the model on the source table: selected columns, hidden ORDER BY keys behind them
+        sub = case['sub']
+        tidx = {n: i for i, (n, _) in enumerate(case['cols'])}
+        itargets = [f'(ECol {tidx[c]}%nat)' for c in sub['cols']]
+        ispec = []
+        for c, d in sub['order']:
+            if c in sub['cols']:
+                ispec.append((sub['cols'].index(c), d == ' DESC'))
+            else:
+                col = f'(ECol {tidx[c]}%nat)'
+                if col not in itargets:
+                    itargets.append(col)
+                ispec.append((itargets.index(col), d == ' DESC'))
+        iq = ('{| q_where := None; q_targets := ' + clist(itargets)
+              + '; q_group := None; q_aggs := []; q_having := None; q_order := '
+              + ('Some ' + clist([cpair(f'{i}%nat', cbool(d)) for i, d in ispec]) if ispec else 'None')
+              + '; q_vis := ' + clist([f'{i}%nat' for i in range(len(sub['cols']))])
+              + '; q_distinct := ' + cbool(sub['distinct']) + '; q_limit := ' + copt(sub['limit'], cZ) + ' |}')
         table = f'(exec {iq} {table})'
     return f"exec_out {q} {table}"
 
@@ -297,6 +387,7 @@ def run(tier, rng):
     else:
         ex = exhaustive_cases()
         cases += [ex[i] for i in range(0, len(ex), 7)]
+    cases += [gen_sub_case(rng) for _ in range(500 if tier == 'quick' else 6000)] + sub_matrix_cases()
     impl_out = core.pmap(run_impl, cases)
     model_out = model_many(cases)
     violations = []
@@ -317,6 +408,25 @@ def run(tier, rng):
         hist['from_ordered_subquery'] = hist.get('from_ordered_subquery', 0) + bool(c.get('inner'))
         for k in c['keys']:
             hist['key_kinds'][k[0]] = hist['key_kinds'].get(k[0], 0) + 1
+        if c.get('sub'):
+            sh = hist.setdefault('from_shaped_subquery', {'cases': 0, 'shapes inner/outer (O=ORDER BY D=DISTINCT L=LIMIT)': {},
+                                                          'inner_limit_cuts_rows': 0, 'outer_limit_above_inner_limit': 0,
+                                                          'plain_outer_scan_with_limit_above_cutting_inner_limit': 0,
+                                                          'inner_hidden_order_key': 0, 'inner_distinct_drops_rows': 0})
+            sub = c['sub']
+            sh['cases'] += 1
+            shape = (('O' if sub['order'] else '') + ('D' if sub['distinct'] else '') + ('L' if sub['limit'] is not None else '') or '-') \
+                + '/' + (('O' if c['keys'] else '') + ('D' if c['distinct'] else '') + ('L' if c['limit'] is not None else '') or '-')
+            sh['shapes inner/outer (O=ORDER BY D=DISTINCT L=LIMIT)'][shape] = sh['shapes inner/outer (O=ORDER BY D=DISTINCT L=LIMIT)'].get(shape, 0) + 1
+            proj = [tuple(r[[n for n, _ in c['cols']].index(x)] for x in sub['cols']) for r in c['rows']]
+            navail = len(set(proj)) if sub['distinct'] else len(proj)
+            cuts = sub['limit'] is not None and sub['limit'] < navail
+            sh['inner_limit_cuts_rows'] += cuts
+            sh['inner_distinct_drops_rows'] += sub['distinct'] and navail < len(proj)
+            sh['inner_hidden_order_key'] += any(x not in sub['cols'] for x, _ in sub['order'])
+            above = sub['limit'] is not None and c['limit'] is not None and c['limit'] > sub['limit']
+            sh['outer_limit_above_inner_limit'] += above
+            sh['plain_outer_scan_with_limit_above_cutting_inner_limit'] += bool(above and cuts and not c['keys'] and not c['distinct'] and not c['agg'])
         if len(c['rows']) >= 2 and i[0] == 0:
             nontrivial += 1
     seen = set()
@@ -340,6 +450,9 @@ def run(tier, rng):
         'rule': 'random tables (1-4 typed columns, 0-8 rows, NULLs, ties) x SELECT [DISTINCT] targets [GROUP BY] ORDER BY 1-4 keys '
                 '(position / output name / hidden column / -expression; ASC/DESC/default) [LIMIT]; plus all direction patterns for '
                 '<=3 keys x all assignments of {NULL,1,2} to the key cells of 4 rows (every 7th in quick, all in thorough); '
+                'FROM (SELECT [DISTINCT] columns FROM #t [ORDER BY visible/hidden keys] [LIMIT i]) under every outer shape [DISTINCT] [ORDER BY] '
+                '[LIMIT o] incl. the plain scan (random, and all combinations on one table with duplicates and NULLs: histograms.from_shaped_subquery), '
+                'the model executing the inner query first; '
                 'non-trivial = distinct (statement, table) with >=2 rows that executed',
         'samples': [statement(c) + '  -- rows ' + repr(c['rows']) for c in cases[3:8]],
         'traces_validated_against_impl': len(cases),
@@ -354,6 +467,8 @@ def replay(rec):
     c['keys'] = [tuple(k) for k in c['keys']]
     c['targets'] = [tuple(t) for t in c['targets']]
     c['inner'] = [tuple(t) for t in c.get('inner', [])]
+    if c.get('sub'):
+        c['sub']['order'] = [tuple(t) for t in c['sub']['order']]
     return run_impl(c) == model_many([c], tag='c03s')[0]
 
 
